@@ -128,8 +128,12 @@ class HTTP2Connection(ConnectionInterface):
                 )
                 self._max_streams_semaphore = Semaphore(local_settings_max_streams)
 
-                for _ in range(local_settings_max_streams - self._max_streams):
-                    self._max_streams_semaphore.acquire()
+                # These acquires never block, but they are checkpoints: being
+                # cancelled half way through would leave the connection
+                # initialised with a semaphore that allows too many streams.
+                with ShieldCancellation():
+                    for _ in range(local_settings_max_streams - self._max_streams):
+                        self._max_streams_semaphore.acquire()
 
         self._max_streams_semaphore.acquire()
 
